@@ -230,4 +230,6 @@ w("//@   modifies nothing")
 w("")
 
 open("/repo/vfs/failfs/zz_contracts_verif.go", "w").write("\n".join(out) + "\n")
+import subprocess
+subprocess.run(["gofmt", "-w", [l for l in open(__file__).read().split(chr(34)) if l.startswith("/repo/vfs/") and l.endswith("zz_contracts_verif.go")][0]])
 print("generated", len(out), "lines")
